@@ -441,6 +441,7 @@ def main(argv=None):
     jobs = args.jobs or int(os.environ.get("VERIF_JOBS", "0") or 0) or \
         min(16, os.cpu_count() or 4)
 
+    os.environ["VERIF_TIER"] = tier      # engines may deepen their plan
     engine = _load_engine(pid)
     d = engine.DEFAULTS[tier]
     budget = args.budget if args.budget is not None else float(
